@@ -57,6 +57,7 @@ EXPECTED_PROBES = [
     "retry_after_failed_commit_refused",
     "plain_zone_holds_an_empty_node",
     "operation_failed_midway_then_retried",
+    "older_versions_retained_during_history",
 ]
 
 
@@ -110,6 +111,9 @@ def gen_case(seed, tier):
         "btree_t": rng.choice([3, 3, 4, 127]),
         "alloc_in_op": rng.randrange(12) if rng.random() < 0.5 else None,
         "empty_node": rng.choice([n for n in names if n != "@"] or ["a"]) if rng.random() < 0.25 else None,
+        # other holders of the versioned zones while the history runs: more than one retained version
+        # (set_max_versions) or a reader opened after the load and kept open to the end
+        "retention": rng.choice(["default", "default", "max3", "unlimited", "pinned_reader", "pinned_reader"]),
     }
 
 
@@ -309,9 +313,9 @@ def _install_hook(txn, hook, counter):
 
 def _attempt_with_node_alloc_failure(ctx, b, txn, work, op, pre):
     """Fault inside an operation: the first node the operation allocates fails (MemoryError out of
-    zone.node_factory).  The failed attempt must have no effect at all -- inside the transaction or
-    on the published zone -- and the same operation, tried again, must behave as if nothing had
-    happened.  Returns what _exec_op returns for the operation."""
+    zone.node_factory).  The failed attempt must leave the transaction either as it was or with the
+    operation done (never half done), must not touch the published zone, and the same operation, tried
+    again, must lead to the state the model predicts.  Returns what _exec_op returns for the operation."""
     cls = type(b.zone)
     orig = cls.__dict__.get("node_factory", None)
     inherited = orig is None
@@ -346,7 +350,20 @@ def _attempt_with_node_alloc_failure(ctx, b, txn, work, op, pre):
     ctx.res.faults.inc("alloc_failure_inside_operation")
     ctx.res.probes.inc("operation_failed_midway_then_retried")
     tag = f"[{b.kind}/{'rel' if b.relativize else 'abs'}] op {Z.describe(op)}"
-    Z.compare("C10:partial-effect-of-failed-operation", b, b.snap_txn(txn), work.snapshot(), f"{tag}: after the operation failed allocating a node")
+    # an operation cut short by a fault is either not done or done (the caller cannot know which and tries
+    # again): anything in between -- part of its effect -- is a violation
+    got = b.snap_txn(txn)
+    if got != work.snapshot():
+        after = work.copy()
+        try:
+            Z.apply_model(b, after, op)
+        except ModelError:
+            after = None
+        if after is not None and got == after.snapshot():
+            work.content = after.content
+            ctx.res.probes.inc("failed_operation_had_taken_full_effect")
+        else:
+            Z.compare("C10:partial-effect-of-failed-operation", b, got, work.snapshot(), f"{tag}: after the operation failed allocating a node (neither the state before nor the state after the operation)")
     Z.compare("C10:published-before-commit", b, b.snap_nodes(), pre, f"{tag}: published zone after a failed operation inside an open transaction")
     return _exec_op(ctx, b, txn, work, op)
 
@@ -569,6 +586,25 @@ def _run_config(ctx, case, kind, relativize):
             m.content[b.absname(spec)] = {}
             ctx.res.probes.inc("plain_zone_holds_an_empty_node")
     _zone_equals(ctx, b, m.snapshot(), "after initial load", "C10:commit-mismatch", names=m.content.keys())
+    pin = None
+    if kind != "plain":
+        ret = case.get("retention", "default")
+        if ret == "max3":
+            b.zone.set_max_versions(3)
+        elif ret == "unlimited":
+            b.zone.set_max_versions(None)
+        elif ret == "pinned_reader":
+            pin = b.zone.reader()
+        if ret != "default":
+            ctx.res.probes.inc("older_versions_retained_during_history")
+    try:
+        return _run_txns(ctx, case, kind, relativize, b, m)
+    finally:
+        if pin is not None:
+            pin.rollback()
+
+
+def _run_txns(ctx, case, kind, relativize, b, m):
     for ti, t in enumerate(case["txns"]):
         if t["kind"] == "r":
             _run_read_txn(ctx, b, m, t)
